@@ -1,16 +1,14 @@
-(* C03 - syntax faults, family A: what errors() collects from the mandated tree (exactly the one MissingTrailingSemic,
-   the empty range at the token in front of the gap), the analysis (it adds nothing when the tree is well-typed: the
-   typing judgements of Spec/Typing.v never look at an attached error), and the statement from texts on. *)
+(* C03 - syntax faults: what errors() collects from the mandated tree (exactly the one prescribed message, the empty range
+   at the token in front of the gap), the analysis (it adds nothing when the tree is well-typed: the typing judgements of
+   Spec/Typing.v never look at an attached error), and the statement from texts on. *)
 From Coq Require Import List Lia Arith Bool.
-From Spl Require Import Proofs.GrammarProofs Spec.Typing Model.Errors Proofs.SemProofs Proofs.TypingProofs
-  Proofs.DeclFaultsText Proofs.SynFaults Proofs.SynFaultsStmt Proofs.SynFaultsProg.
+From Spl Require Import Proofs.GrammarProofs Spec.Typing Model.Errors Proofs.SemProofs Proofs.TypingProofs Proofs.DeclFaultsText.
+From Spl Require Import Proofs.SynFaults Proofs.SynFaultsStmt Proofs.SynFaultsProg.
 Import ListNotations.
 Local Open Scope nat_scope.
 
-Definition semic_err (g : nat) : err := gap_err MissingTrailingSemic g.
-
-Lemma shift_gap m off g : shift_es off [gap_err m g] = [gap_err m (g + off)].
-Proof. reflexivity. Qed.
+(* the prescribed diagnostic, as a token range: the message of the missing token, the empty range at token g *)
+Definition fault_err (k : kind) (g : nat) : err := gap_err (msg_of_kind k) g.
 
 Lemma x_args_errors a o : args_errors (x_sep fl_cmp (x_cmp 0) o a) = [].
 Proof.
@@ -26,37 +24,46 @@ Proof. apply stmts_errors_clean, clean_stmt_all. Qed.
 Lemma x_cmp_errors o e : expr_errors (x_cmp o e) = [].
 Proof. apply cl_e, clean_cmp. Qed.
 
+Ltac one_err := unfold fault_err, gap_err, shift_e; cbn [e_s e_e e_m]; f_equal; f_equal; lia.
+
 (* exactly one error in the faulty statement: at the token in front of the gap *)
 Lemma fx_errors :
-  (forall s o, stmt_errors (fx_stmt o s) = [semic_err (o + gap_stmt s)]) /\
-  (forall b o, stmts_errors (fx_stmts o b) = [semic_err (o + gap_stmts b)]).
+  (forall s o, stmt_errors (fx_stmt o s) = [fault_err (gk_stmt s) (o + gap_stmt s)]) /\
+  (forall b o, stmts_errors (fx_stmts o b) = [fault_err (gk_stmts b) (o + gap_stmts b)]).
 Proof.
   apply fstmt_mutind.
-  - intros v c1 e o. cbn [fx_stmt stmt_errors opt_expr_errors finfo i_errs gap_stmt].
-    rewrite (cl_v _ (clean_var_ok v o)), x_cmp_errors. cbn [shift_es map app]. unfold semic_err. do 2 f_equal.
-    pose proof (fl_var_pos v). flens'. lia.
-  - intros c1 f c2 a c3 o. cbn [fx_stmt gap_stmt]. rewrite call_errors. cbn [finfo i_errs]. unfold ident_errors, x_ident.
-    cbn [id_info mkinfo i_errs]. rewrite x_args_errors. cbn [app]. unfold semic_err. do 2 f_equal. flens'. lia.
-  - intros c1 c2 e c3 t IH o. cbn [fx_stmt gap_stmt]. rewrite stmt_errors_if. cbn [mkinfo i_errs opt_expr_errors opt_stmt_errors app].
-    rewrite x_cmp_errors, IH. cbn [shift_es map app]. rewrite ?app_nil_r. unfold semic_err, gap_err, shift_e. cbn [e_s e_e e_m].
-    f_equal. f_equal; lia.
-  - intros c1 c2 e c3 t IH c4 s o. cbn [fx_stmt gap_stmt]. rewrite stmt_errors_if. cbn [mkinfo i_errs opt_expr_errors opt_stmt_errors app].
-    rewrite x_cmp_errors, IH, x_stmt_errors. cbn [shift_es map app]. unfold semic_err, gap_err, shift_e. cbn [e_s e_e e_m].
-    f_equal. f_equal; lia.
-  - intros c1 c2 e c3 t c4 s IH o. cbn [fx_stmt gap_stmt]. rewrite stmt_errors_if. cbn [mkinfo i_errs opt_expr_errors opt_stmt_errors app].
-    rewrite x_cmp_errors, IH, x_stmt_errors. cbn [shift_es map app]. unfold semic_err, gap_err, shift_e. cbn [e_s e_e e_m].
-    f_equal. f_equal; lia.
-  - intros c1 c2 e c3 b IH o. cbn [fx_stmt gap_stmt]. rewrite stmt_errors_while. cbn [mkinfo i_errs opt_expr_errors opt_stmt_errors app].
-    rewrite x_cmp_errors, IH. cbn [shift_es map app]. unfold semic_err, gap_err, shift_e. cbn [e_s e_e e_m].
-    f_equal. f_equal; lia.
-  - intros c1 b IH c2 o. cbn [fx_stmt gap_stmt]. rewrite stmt_errors_block. cbn [mkinfo i_errs app].
-    fold (stmts_errors (fx_stmts (o + len c1 + 1) b)). rewrite IH. f_equal. f_equal. lia.
-  - intros s IH r o. cbn [fx_stmts gap_stmts]. unfold stmts_errors. cbn [flat_map fst snd].
-    fold (stmts_errors (x_stmts (o + len (ffl_stmt s)) r)). rewrite x_stmts_errors, IH, app_nil_r. cbn [shift_es map].
-    unfold semic_err, gap_err, shift_e. cbn [e_s e_e e_m]. f_equal. f_equal; lia.
-  - intros s r IH o. cbn [fx_stmts gap_stmts]. unfold stmts_errors. cbn [flat_map fst snd].
-    fold (stmts_errors (fx_stmts (o + len (fl_stmt s)) r)). rewrite x_stmt_errors, IH. cbn [shift_es map app].
-    f_equal. f_equal. lia.
+  - intros v c1 e o. cbn [fxg_stmt stmt_errors opt_expr_errors einfo i_errs gk_stmt].
+    rewrite (cl_v _ (clean_var_ok v o)), x_cmp_errors. reflexivity.
+  - intros c1 f c2 a c3 o. cbn [fxg_stmt gk_stmt]. rewrite call_errors. cbn [einfo i_errs]. unfold ident_errors, x_ident.
+    cbn [id_info mkinfo i_errs]. rewrite x_args_errors. reflexivity.
+  - intros c1 f c2 a c4 o. cbn [fxg_stmt gk_stmt]. rewrite call_errors. cbn [einfo i_errs]. unfold ident_errors, x_ident.
+    cbn [id_info mkinfo i_errs]. rewrite x_args_errors. reflexivity.
+  - intros c1 c2 e t o. cbn [fxg_stmt gk_stmt]. rewrite stmt_errors_if. cbn [einfo i_errs opt_expr_errors opt_stmt_errors].
+    rewrite x_cmp_errors, x_stmt_errors. reflexivity.
+  - intros c1 c2 e t c4 s o. cbn [fxg_stmt gk_stmt]. rewrite stmt_errors_if. cbn [einfo i_errs opt_expr_errors opt_stmt_errors].
+    rewrite x_cmp_errors, !x_stmt_errors. reflexivity.
+  - intros c1 c2 e b o. cbn [fxg_stmt gk_stmt]. rewrite stmt_errors_while. cbn [einfo i_errs opt_expr_errors opt_stmt_errors].
+    rewrite x_cmp_errors, x_stmt_errors. reflexivity.
+  - intros c1 c2 e c3 t IH o. cbn [fxg_stmt gap_stmt gk_stmt]. rewrite stmt_errors_if. cbn [mkinfo i_errs opt_expr_errors opt_stmt_errors app].
+    rewrite x_cmp_errors, IH. cbn [shift_es map app]. rewrite ?app_nil_r. one_err.
+  - intros c1 c2 e c3 t IH c4 s o. cbn [fxg_stmt gap_stmt gk_stmt]. rewrite stmt_errors_if. cbn [mkinfo i_errs opt_expr_errors opt_stmt_errors app].
+    rewrite x_cmp_errors, IH, x_stmt_errors. cbn [shift_es map app]. one_err.
+  - intros c1 c2 e c3 t c4 s IH o. cbn [fxg_stmt gap_stmt gk_stmt]. rewrite stmt_errors_if. cbn [mkinfo i_errs opt_expr_errors opt_stmt_errors app].
+    rewrite x_cmp_errors, IH, x_stmt_errors. cbn [shift_es map app]. one_err.
+  - intros c1 c2 e c3 b IH o. cbn [fxg_stmt gap_stmt gk_stmt]. rewrite stmt_errors_while. cbn [mkinfo i_errs opt_expr_errors opt_stmt_errors app].
+    rewrite x_cmp_errors, IH. cbn [shift_es map app]. one_err.
+  - intros c1 b IH c2 o.
+    change (fx_stmt o (FBlk c1 b c2)) with (SBlock (fx_stmts (o + len c1 + 1) b) (mkinfo o (o + len (ffl_stmt (FBlk c1 b c2))))).
+    cbn [gap_stmt gk_stmt]. rewrite stmt_errors_block. cbn [mkinfo i_errs app].
+    fold (stmts_errors (fx_stmts (o + len c1 + 1) b)). rewrite IH. one_err.
+  - intros s IH r o.
+    change (fx_stmts o (FHere s r)) with ((fx_stmt 0 s, o) :: x_stmts (o + len (ffl_stmt s)) r).
+    cbn [gap_stmts gk_stmts]. unfold stmts_errors. cbn [flat_map fst snd].
+    fold (stmts_errors (x_stmts (o + len (ffl_stmt s)) r)). rewrite x_stmts_errors, IH, app_nil_r. cbn [shift_es map]. one_err.
+  - intros s r IH o.
+    change (fx_stmts o (FLater s r)) with ((x_stmt 0 s, o) :: fx_stmts (o + len (fl_stmt s)) r).
+    cbn [gap_stmts gk_stmts]. unfold stmts_errors. cbn [flat_map fst snd].
+    fold (stmts_errors (fx_stmts (o + len (fl_stmt s)) r)). rewrite x_stmt_errors, IH. cbn [shift_es map app]. one_err.
 Qed.
 
 Lemma x_params_errors o ps :
@@ -81,13 +88,29 @@ Proof.
   rewrite (clean_nil _ Hvi), (clean_opt_name_errors _ Hvn), (clean_opt_texpr_errors _ Hvt). reflexivity.
 Qed.
 
-Lemma fx_decl_errors d : gdecl_errors (fx_decl d) = [semic_err (gap_decl d)].
+Lemma x_type_errors o t : texpr_errors (x_type o t) = [].
+Proof. apply clean_texpr_errors, clean_type. Qed.
+
+Lemma fx_decl_errors d : gdecl_errors (fx_decl d) = [fault_err (gk_decl d) (gap_decl d)].
 Proof.
-  destruct d as [c1 c2 x c3 ps c4 c5 vs b c6]. cbn [fx_decl gdecl_errors]. unfold procdecl_errors.
-  cbn [pd_info pd_name pd_params pd_vars pd_stmts mkinfo i_errs opt_ident_errors app]. unfold ident_errors, x_ident. cbn [id_info mkinfo i_errs app].
-  rewrite x_params_errors, x_vardecls_errors. cbn [app].
-  match goal with |- flat_map _ (fx_stmts ?o b) = _ => fold (stmts_errors (fx_stmts o b)); rewrite (proj2 fx_errors b o) end.
-  cbn [gap_decl]. reflexivity.
+  destruct d as [c1 c2 x c3 ps c4 c5 vs b c6|c1 c2 x c3 ps c4 c5 vs1 d1 d2 y d3 t vs2 b c6|c1 c2 x c3 ps c4 c5 vs b|c1 c2 x c3 t];
+    cbn [fxg_decl gdecl_errors gk_decl gap_decl]; cbv zeta.
+  - unfold procdecl_errors. cbn [pd_info pd_name pd_params pd_vars pd_stmts mkinfo i_errs opt_ident_errors app].
+    unfold ident_errors, x_ident. cbn [id_info mkinfo i_errs app]. rewrite x_params_errors, x_vardecls_errors. cbn [app].
+    match goal with |- flat_map _ (fx_stmts ?o b) = _ => fold (stmts_errors (fx_stmts o b)); rewrite (proj2 fx_errors b o) end.
+    reflexivity.
+  - unfold procdecl_errors. cbn [pd_info pd_name pd_params pd_vars pd_stmts mkinfo i_errs opt_ident_errors app].
+    unfold ident_errors, x_ident. cbn [id_info mkinfo i_errs app]. rewrite x_params_errors. cbn [app].
+    rewrite flat_map_app. cbn [flat_map fst snd]. rewrite !x_vardecls_errors.
+    match goal with |- context [flat_map _ (x_stmts ?o b)] => fold (stmts_errors (x_stmts o b)); rewrite (x_stmts_errors o b) end.
+    unfold fxg_var. cbv zeta. cbn [vardecl_errors einfo i_errs opt_ident_errors opt_texpr_errors]. unfold ident_errors, x_ident.
+    cbn [id_info mkinfo i_errs]. rewrite x_type_errors. cbn [shift_es map app]. pose proof (ffl_var_pos d1 d2 y d3 t). unfold e_real. rewrite !app_nil_r. cbn [shift_es map]. one_err.
+  - unfold procdecl_errors. cbn [pd_info pd_name pd_params pd_vars pd_stmts einfo i_errs opt_ident_errors app].
+    unfold ident_errors, x_ident. cbn [id_info mkinfo i_errs app]. rewrite x_params_errors, x_vardecls_errors.
+    match goal with |- context [flat_map _ (x_stmts ?o b)] => fold (stmts_errors (x_stmts o b)); rewrite (x_stmts_errors o b) end.
+    reflexivity.
+  - unfold typedecl_errors. cbn [td_info td_name td_ty einfo i_errs opt_ident_errors opt_texpr_errors].
+    unfold ident_errors, x_ident. cbn [id_info mkinfo i_errs]. rewrite x_type_errors. reflexivity.
 Qed.
 
 Lemma x_decls_errors o ds : gdecls_errors (x_decls o ds) = [].
@@ -97,21 +120,20 @@ Proof.
 Qed.
 
 (* errors() of the mandated tree: the one diagnostic, in absolute token indices *)
-Theorem fexpected_errors p : tree_errors (fexpected p) = [semic_err (gap_prog p)].
+Theorem fexpected_errors p : tree_errors (fexpected p) = [fault_err (gk_prog p) (gap_prog p)].
 Proof.
-  unfold tree_errors, fexpected. cbn [pg_info pg_decls mkinfo i_errs app]. rewrite flat_map_app. cbn [flat_map fst snd].
+  unfold tree_errors, fxg_prog. cbn [pg_info pg_decls mkinfo i_errs app]. rewrite flat_map_app. cbn [flat_map fst snd].
   fold (gdecls_errors (x_decls 0 (fp_pre p))).
   match goal with |- context [flat_map _ (x_decls ?o (fp_post p))] => fold (gdecls_errors (x_decls o (fp_post p))) end.
-  rewrite !x_decls_errors, fx_decl_errors, app_nil_r. cbn [app shift_es map]. unfold gap_prog, semic_err, gap_err, shift_e. cbn [e_s e_e e_m].
-  f_equal. f_equal; lia.
+  rewrite !x_decls_errors, fx_decl_errors, app_nil_r. cbn [app shift_es map]. unfold gap_prog, gk_prog. one_err.
 Qed.
 
 (* ---- the analysis: the tree goes through build and analyze unchanged when it is well-typed (build_sound and
    analyze_sound hold for ALL trees; tree_clean is only needed to say that no error was there before) ---- *)
-Theorem missing_semicolon_tree p G toks :
+Theorem missing_token_tree p G toks :
   fprog_ok p = true -> map tk toks = fflatten p ++ [Eof] -> well_typed (fexpected p) G ->
   parse toks = Done (fexpected p) /\ build_res (fexpected p) = ROk (fexpected p, G) /\
-  analyze_res (fexpected p) G = ROk (fexpected p) /\ tree_errors (fexpected p) = [semic_err (gap_prog p)].
+  analyze_res (fexpected p) G = ROk (fexpected p) /\ tree_errors (fexpected p) = [fault_err (gk_prog p) (gap_prog p)].
 Proof.
   intros Hok Hk [Hwf Hwt]. split; [exact (fparse p toks Hok Hk)|]. split; [apply build_sound, Hwf|].
   split; [apply analyze_sound, Hwt | apply fexpected_errors].
@@ -124,15 +146,15 @@ Proof.
   apply nth_error_None in E. rewrite <- (map_length tk), Hk, app_length in E. pose proof (gap_prog_lt p). lia.
 Qed.
 
-(* from texts on: every text that lexes to the faulty token vector gets exactly ONE diagnostic: `missing trailing ;`,
-   the empty byte range at the END of the token in front of the gap - and no semantic follow-up *)
-Theorem missing_semicolon_text p t G toks tok :
+(* from texts on: every text that lexes to the faulty token vector gets exactly ONE diagnostic: the message of the missing
+   token, the empty byte range at the END of the token in front of the gap - and no semantic follow-up *)
+Theorem missing_token_text p t G toks tok :
   fprog_ok p = true -> lex t = Some toks -> map tk toks = fflatten p ++ [Eof] -> well_typed (fexpected p) G ->
   nth_error toks (gap_prog p) = Some tok ->
-  diagnostics t = Done [(te tok, te tok, EParse MissingTrailingSemic)].
+  diagnostics t = Done [(te tok, te tok, EParse (msg_of_kind (gk_prog p)))].
 Proof.
-  intros Hok Hlex Hk Hwt Htok. destruct (missing_semicolon_tree p G toks Hok Hk Hwt) as [Hp [Hb [Ha He]]].
+  intros Hok Hlex Hk Hwt Htok. destruct (missing_token_tree p G toks Hok Hk Hwt) as [Hp [Hb [Ha He]]].
   unfold diagnostics, new_doc, new_doc_res. rewrite Hlex, Hp, Hb, Ha.
   cbn [ores_outcome]. unfold doc_errors, doc_errors_res. cbn [d_ast d_toks]. rewrite He. cbn [byte_ranges].
-  rewrite (byte_range_empty toks (semic_err (gap_prog p)) tok eq_refl Htok). reflexivity.
+  rewrite (byte_range_empty toks (fault_err (gk_prog p) (gap_prog p)) tok eq_refl Htok). reflexivity.
 Qed.
